@@ -79,6 +79,7 @@ fn main() {
         "C03" => props::c03::run(tier),
         "C04" => props::pad::run_c04(tier),
         "C05" => props::pad::run_c05(tier),
+        "C06" => props::c06::run(tier),
         "C07" => props::c07::run(tier),
         "C08" => props::c08::run(tier),
         "C09" => props::c09::run(tier),
